@@ -416,4 +416,43 @@ def rule_bound_triggers(ctx: Ctx):
     c13.rule_bind(ctx, rule="C17.carry")
 
 
-RULES = [rule_carry, rule_excluded, rule_steps, rule_attach, rule_first_attachment, rule_no_snapshot, rule_restart_guard, rule_bound_triggers]
+
+def rule_listener_identity(ctx: Ctx):
+    """C17.carry: the record of attached listeners must tell listeners apart by identity.  The live registry does (callback
+    keys carry id(listener)), so two distinct listeners that compare equal (frozen dataclasses, named tuples) are both
+    served by the original; a record keyed by the listener itself (== / hash) keeps one of them and the clone serves one."""
+    rep = ctx.rep
+    init = ctx.fn("StateMachine.__init__")
+    rec = None
+    for p in ctx.paths(init, inline=None, exc_edges="none"):
+        for e in p.of("store"):
+            if e.x.get("attr") == "_listeners":
+                rec = xshow(e.x["value"], p.events)
+        break
+    keyed_by_object = []
+    for fn in (ctx.fn("StateMachine._register_callbacks"), ctx.fn("StateMachine.add_listener")):
+        for p in ctx.paths(fn, inline=None, exc_edges="none", unroll=1):
+            evs = p.events
+            for e in p.calls():
+                f = e.term.func
+                if isinstance(f, ast.Attribute) and xshow(f.value, evs) == "self._listeners" and f.attr in ("update", "setdefault") and e.term.args:
+                    a0 = expand1(e.term.args[0], evs)
+                    txt = xshow(e.term.args[0], evs)
+                    by_id = "id(" in txt
+                    if not by_id and id(e.node) not in {id(x.node) for x in keyed_by_object}:
+                        keyed_by_object.append(e)
+            for e in p.of("store"):
+                if e.x.get("subscript") and xshow(e.term.value, evs) == "self._listeners" and "id(" not in xshow(e.term.slice, evs):
+                    if id(e.node) not in {id(x.node) for x in keyed_by_object}:
+                        keyed_by_object.append(e)
+    mapping = rec in ("{}", "dict()")
+    if mapping and keyed_by_object:
+        e = keyed_by_object[0]
+        rep.violation("C17.carry", e.loc(), "the record of attached listeners is a mapping keyed by the listener objects themselves: two distinct "
+                      "listeners that compare equal collapse into one entry, so the clone re-attaches (and serves) only one of them while the "
+                      "original serves both", "statemachine/statemachine.py::StateMachine._listeners", "listener record keyed by ==/hash of the listener")
+    else:
+        rep.ok("C17.carry", init.loc(), "the record of attached listeners tells them apart by identity", record=rec)
+
+
+RULES = [rule_carry, rule_excluded, rule_steps, rule_attach, rule_first_attachment, rule_no_snapshot, rule_restart_guard, rule_bound_triggers, rule_listener_identity]
